@@ -67,10 +67,13 @@ class RegionBoundingBox:
         if iymin > iymax:
             raise ValueError('iymin must be <= iymax')
 
-        self.ixmin = ixmin
-        self.ixmax = ixmax
-        self.iymin = iymin
-        self.iymax = iymax
+        # store Python integers: corners given as fixed-width numpy
+        # integers would make shape, center, extent, union and slices
+        # overflow or wrap around
+        self.ixmin = int(ixmin)
+        self.ixmax = int(ixmax)
+        self.iymin = int(iymin)
+        self.iymax = int(iymax)
 
     @classmethod
     def from_float(cls, xmin, xmax, ymin, ymax):
